@@ -7,6 +7,11 @@
 //   beg | nxt | der    it = h->begin() | ++it | read *it            (nxt/der/erc at end() are no-ops)
 //   pf=k pb=k ef=k eb=k   push_front / push_back / emplace_front / emplace_back of value k (write handle)
 //   pf=k! ...             the element's move/copy into the node throws (obj only)
+//   pf=k!n ...            the allocation of the node fails (the allocator throws)
+//   beg!z pf=k!z ...      the allocation of a log record fails: the registration of a not yet used handle
+//   erc!z ers!z eri=i!z erv=k!z   ... the allocation of the zombie record inside erase
+//                         (`afl N|Z` at the throw, `exc op` when the exception reaches the client; a fault that no
+//                         allocation consumes is disarmed at the end of the op)
 //   erc | ers          it = h->erase(it) | h->erase(it) with the result dropped      (write handle)
 //   all                macro: for (it = begin; it != end; ++it) read *it        -> beg,(der,nxt)*
 //   eri=i              macro: erase the i-th element (found by traversal)       -> beg,nxt^i,erc
@@ -22,6 +27,7 @@
 
 #include "vclient.hpp"
 #include <algorithm>
+#include <cstring>
 #include <set>
 #include <sys/mman.h>
 using namespace vclient;
@@ -111,6 +117,8 @@ struct ElemThrow: std::runtime_error {
 };
 static std::set<const void*> g_live_elems;
 static bool g_throw_in_node = false;  // next construction of an Obj inside an arena block throws
+static char g_fail_alloc[64] = {0};   // per logical thread: 'N' / 'Z' = its next allocation of a node / of a record throws
+struct AllocFail : std::bad_alloc {};
 
 struct Obj {
     long v;
@@ -180,6 +188,12 @@ struct TAlloc {
             throw std::bad_alloc();
         }
         char k = is_rec<T>::value ? 'Z' : (is_node<T>::value ? 'N' : 'B');
+        if (g_fail_alloc[verif::self() % 64] == k) {
+            // injected allocation failure: nothing is allocated
+            g_fail_alloc[verif::self() % 64] = 0;
+            verif::emit(std::string("afl ") + k);
+            throw AllocFail();
+        }
         Block b{g_arena + g_used, n * sizeof(T), k, g_count[int(k)]++, B_ALLOC};
         g_used += sz;
         g_blocks.push_back(b);
@@ -353,10 +367,23 @@ struct Runner {
             name = op.substr(0, eq);
             arg = op.substr(eq + 1);
         }
-        bool thr = !arg.empty() && arg.back() == '!';
-        if (thr) {
-            arg.pop_back();
+        // fault suffix: `!` element constructor throws, `!n` node allocation fails, `!z` record allocation fails
+        std::string fault;
+        bool faulty = false;
+        {
+            std::string& w = arg.empty() ? name : arg;
+            auto bang = w.find('!');
+            if (bang != std::string::npos) {
+                faulty = true;
+                fault = w.substr(bang + 1);
+                w = w.substr(0, bang);
+            }
         }
+        bool thr = faulty && fault.empty();
+        struct Arm {
+            explicit Arm(const std::string& f) { g_fail_alloc[verif::self() % 64] = f == "n" ? 'N' : (f == "z" ? 'Z' : 0); }
+            ~Arm() { g_fail_alloc[verif::self() % 64] = 0; }
+        } arm(fault);
         bool has = t.rh || t.wh;
         if (name == "lr" || name == "lw") {
             if (has) {
@@ -396,13 +423,17 @@ struct Runner {
         } else if (name == "beg") {
             CallScope c(op);
             unsigned v = t.variant++ % 2U;
-            if (t.rh) {
-                t.cit = (v == 0U) ? (*t.rh)->begin() : (**t.rh).begin();
-            } else {
-                t.wit = (v == 0U) ? (*t.wh)->begin() : (**t.wh).begin();
+            try {
+                if (t.rh) {
+                    t.cit = (v == 0U) ? (*t.rh)->begin() : (**t.rh).begin();
+                } else {
+                    t.wit = (v == 0U) ? (*t.wh)->begin() : (**t.wh).begin();
+                }
+                t.has_it = true;
+                c.ret();
+            } catch (const AllocFail&) {
+                verif::emit("exc " + op);  // the registration failed: the handle is still unused, the iterator unchanged
             }
-            t.has_it = true;
-            c.ret();
         } else if (name == "nxt") {
             if (!t.has_it || at_end(t, L)) {
                 return;
@@ -422,14 +453,18 @@ struct Runner {
                 return;
             }
             CallScope c(op);
-            if (name == "erc") {
-                t.wit = (*t.wh)->erase(t.wit);
-            } else {
-                CIt pos(t.wit);
-                WIt same(pos);  // the (private) const_iterator -> iterator conversion
-                (*t.wh)->erase(same);  // result dropped: the iterator stays on the erased element
+            try {
+                if (name == "erc") {
+                    t.wit = (*t.wh)->erase(t.wit);
+                } else {
+                    CIt pos(t.wit);
+                    WIt same(pos);  // the (private) const_iterator -> iterator conversion
+                    (*t.wh)->erase(same);  // result dropped: the iterator stays on the erased element
+                }
+                c.ret();
+            } catch (const AllocFail&) {
+                verif::emit("exc " + op);
             }
-            c.ret();
         } else if (name == "pf" || name == "pb" || name == "ef" || name == "eb") {
             if (!t.wh) {
                 verif::fail("client-error: push without write handle");
@@ -461,6 +496,8 @@ struct Runner {
                 c.ret();
             } catch (const ElemThrow&) {
                 verif::emit("exc " + op);
+            } catch (const AllocFail&) {
+                verif::emit("exc " + op);
             }
             g_throw_in_node = false;
         } else {
@@ -477,11 +514,19 @@ struct Runner {
             name = op.substr(0, eq);
             arg = op.substr(eq + 1);
         }
+        std::string fault;  // `eri=i!z` / `erv=k!z`: the fault goes to the macro's erase
+        {
+            auto bang = arg.find('!');
+            if (bang != std::string::npos) {
+                fault = arg.substr(bang);
+                arg = arg.substr(0, bang);
+            }
+        }
         if (name == "all") {
             verif::emit("mac " + op);
             std::string seen;
             prim(L, t, "beg");
-            while (!at_end(t, L)) {
+            while (t.has_it && !at_end(t, L)) {
                 long v = 0;
                 {
                     CallScope c("der");
@@ -496,16 +541,16 @@ struct Runner {
             verif::emit("mac " + op);
             int i = atoi(arg.c_str());
             prim(L, t, "beg");
-            for (int k = 0; k < i && !at_end(t, L); ++k) {
+            for (int k = 0; k < i && t.has_it && !at_end(t, L); ++k) {
                 prim(L, t, "nxt");
             }
-            prim(L, t, "erc");
+            prim(L, t, "erc" + fault);
             verif::emit("mend " + op);
         } else if (name == "erv") {
             verif::emit("mac " + op);
             long want = atol(arg.c_str());
             prim(L, t, "beg");
-            while (!at_end(t, L)) {
+            while (t.has_it && !at_end(t, L)) {
                 long v = 0;
                 {
                     CallScope c("der");
@@ -513,7 +558,7 @@ struct Runner {
                     c.ret(std::to_string(v));
                 }
                 if (v == want) {
-                    prim(L, t, "erc");
+                    prim(L, t, "erc" + fault);
                     break;
                 }
                 prim(L, t, "nxt");
@@ -602,6 +647,7 @@ static verif::Result exec(const Script& sc, const verif::Config& cfg0)
     arena_reset();
     g_live_elems.clear();
     g_throw_in_node = false;
+    memset(g_fail_alloc, 0, sizeof g_fail_alloc);
     std::string elem = parts[0];
     bool alloc_ctor = parts.size() > 1 && parts[1] == "a";
     verif::emit("cfg rcu " + elem + " " + (alloc_ctor ? "a" : "d"));
@@ -623,6 +669,16 @@ static verif::Result exec(const Script& sc, const verif::Config& cfg0)
 // script generation: everything terminates under every schedule (the only blocking operation is the
 // write mutex, always released by the same operation)
 // ------------------------------------------------------------------------------------------------
+// allocation faults: a failing record allocation (registration / erase), a failing node or record allocation (push)
+static std::string zfault(Rng& r)
+{
+    return r.chance(1, 9) ? "!z" : "";
+}
+static std::string afault(Rng& r)
+{
+    return r.chance(1, 12) ? "!n" : (r.chance(1, 14) ? "!z" : "");
+}
+
 static Script gen(Rng& r, int size)
 {
     Script s;
@@ -651,11 +707,11 @@ static Script gen(Rng& r, int size)
                 } else if (k < 6) {
                     ops.push_back("pb=" + v + ((obj && r.chance(1, 12)) ? "!" : ""));
                 } else if (k < 7) {
-                    ops.push_back((r.chance(1, 2) ? "ef=" : "eb=") + v);
+                    ops.push_back((r.chance(1, 2) ? "ef=" : "eb=") + v + afault(r));
                 } else if (k < 8) {
-                    ops.push_back("eri=" + std::to_string(r.below(4)));
+                    ops.push_back("eri=" + std::to_string(r.below(4)) + zfault(r));
                 } else {
-                    ops.push_back("erv=" + v);
+                    ops.push_back("erv=" + v + zfault(r));
                 }
             }
             ops.push_back("all");
@@ -678,7 +734,7 @@ static Script gen(Rng& r, int size)
                 int k = r.below(writer ? 12 : 6);
                 switch (k) {
                     case 0:
-                        ops.push_back("beg");
+                        ops.push_back("beg" + zfault(r));
                         break;
                     case 1:
                         ops.push_back("nxt");
@@ -694,22 +750,22 @@ static Script gen(Rng& r, int size)
                         ops.push_back(r.chance(1, 2) ? "beg" : "der");
                         break;
                     case 6:
-                        ops.push_back("pf=" + std::to_string(key++) + ((obj && r.chance(1, 10)) ? "!" : ""));
+                        ops.push_back("pf=" + std::to_string(key++) + ((obj && r.chance(1, 10)) ? "!" : afault(r)));
                         break;
                     case 7:
-                        ops.push_back("pb=" + std::to_string(key++) + ((obj && r.chance(1, 10)) ? "!" : ""));
+                        ops.push_back("pb=" + std::to_string(key++) + ((obj && r.chance(1, 10)) ? "!" : afault(r)));
                         break;
                     case 8:
-                        ops.push_back((r.chance(1, 2) ? "ef=" : "eb=") + std::to_string(key++));
+                        ops.push_back((r.chance(1, 2) ? "ef=" : "eb=") + std::to_string(key++) + afault(r));
                         break;
                     case 9:
-                        ops.push_back(r.chance(2, 3) ? "erc" : "ers");
+                        ops.push_back(std::string(r.chance(2, 3) ? "erc" : "ers") + zfault(r));
                         break;
                     case 10:
-                        ops.push_back("eri=" + std::to_string(r.below(3)));
+                        ops.push_back("eri=" + std::to_string(r.below(3)) + zfault(r));
                         break;
                     default:
-                        ops.push_back("erv=" + std::to_string(1 + r.below(std::max(1, key))));
+                        ops.push_back("erv=" + std::to_string(1 + r.below(std::max(1, key))) + zfault(r));
                         break;
                 }
             }
@@ -750,6 +806,12 @@ int main(int argc, char** argv)
         parse("obj-a;lw,pf=1,rel;lw,pb=2,rel;lw,ef=3,rel;lr,all,all,rel"),
         // handle never used / never released explicitly
         parse("int-a;lr;lw;lw,pf=1"),
+        // allocation failures: registration (first use of a handle), node allocation in push / emplace, zombie-record
+        // allocation in erase (also by a macro, on an already erased element = no allocation, and with readers around)
+        parse("obj-d;lw,beg!z,pf=1!z,pb=2!z,ef=3!z,eb=4!z,pf=5!n,pb=6!n,ef=7!n,eb=8!n,pf=1,pb=2,pb=3,beg,erc!z,nxt,ers!z,der,eri=1!z,erv=3!z,all,eri=0,all,rel"),
+        parse("int-a;lw,pb=1!z,pb=1,pb=2,beg,ers,ers!z,erc!z,all,erv=2!z,erv=2,all,rel,lr,beg!z,beg,der,rel"),
+        parse("obj-d;lw,pf=1,beg,erc!z,rel"),
+        parse("obj-a;lw,pb=1,pb=2,pb=3,rel,lw,eri=1!z,eri=1,eri=0!z,rel;lr,all,all,rel;lr,beg!z,beg,der,nxt,der,rel"),
         // directed schedules (run lengths of the first scheduling decisions, see exec): the writer is stopped inside
         // erase - before the unlink, between unlink and the push of the zombie record, after it - while two readers
         // register and start a traversal; then the writer finishes and releases, the older reader releases (and
